@@ -4,11 +4,13 @@ import json
 from vlib import ToolError, log
 
 CHECKS = {}
+META = {}
 
 
-def check(pid):
+def check(pid, **meta):
     def deco(f):
         CHECKS[pid] = f
+        META[pid] = meta
         return f
     return deco
 
@@ -27,7 +29,14 @@ def write_cases(ck, cases, name):
 
 
 # ---------------------------------------------------------------------------------------------- C03
-@check("C03")
+@check("C03", design_ref="4 C03, App. F",
+       technique="TLC model checking of a TLA+ decoder machine vs a strict grammar; co-enumeration and trace validation of real hsms.Parse results against the TLA+ grammar",
+       text="TLC proves, for every input of a bounded scope, that the code-shaped decoder machine accepts exactly the strings of the "
+            "declarative E5/E37 grammar and terminates; the real hsms.Parse is then bound to that grammar by running the same scope "
+            "(exhaustively) and seeded corruptions of random encodings through it and letting TLC check every recorded verdict, decoded "
+            "message and re-encoding against the grammar. The property is a set equality over all byte strings, which only an independent "
+            "grammar can state.",
+       note="exhaustive only inside the scope (16-byte alphabet, text <= 4/5 bytes; 168 header variants); beyond it seeded traces; TLC, the JSON module and the harness projection are trusted")
 def c03(ck):
     ck.rule.append("model: every text of length <= N over 16 control-flow-relevant bytes behind a good header and "
                    "<= NH behind 168 header variants, each run step by step through the decoder machine; "
@@ -57,3 +66,66 @@ def c03(ck):
     ck.assumptions += ["TLC explores the decoder model exhaustively only inside the stated scope",
                        "the harness projection (zz_verif.go, proj.go) reports the stored representation faithfully",
                        "message name and direction are not on the wire and are not compared"]
+
+
+# ---------------------------------------------------------------------------------------------- C01 / C02
+def _codec_common(ck, props, label_rule):
+    ck.rule.append(label_rule)
+    r = ck.model("MCRoundTrip", "MCRoundTrip", "MCRoundTrip_%s.cfg" % ck.tier, timeout=q(ck, 600, 3000))
+    if not r.cases:
+        raise ToolError("MCRoundTrip emitted no cases")
+    table = write_cases(ck, r.cases, "rtcases.ndjson")
+    nt = lambda e: e.get("msg", {}).get("item", {}).get("f") not in (None, "none")
+    key = lambda e: json.dumps([e.get("msg"), e.get("bytes")], sort_keys=True)
+    # TLC -> Go: the model's messages built through the factories
+    ev = ck.trace("replay", "rt-replay", ["-in", table], "TraceCodec", "TraceCodec.cfg", props + ["InvExpect"],
+                  nontrivial=nt, key=key)
+    ck.replayed += len(ev)
+    if ck.violations:
+        return
+    # Go -> TLC: random messages built by factories, life cycle, fill, SML parser, HSMS decoder
+    ck.trace("rt", "rt", ["-n", q(ck, 1500, 40000)], "TraceCodec", "TraceCodec.cfg", props,
+             agree=["InvAgreeDecoder"], nontrivial=nt, key=key)
+    ck.assumptions += ["float bit patterns are supplied by math.Float32bits/Float64bits in the harness (trusted)",
+                       "the projection (zz_verif.go, proj.go) reports the stored representation faithfully",
+                       "TLC scope: leaves with <= 2 boundary values, lists to depth 2; beyond that seeded random traces"]
+
+
+@check("C01", design_ref="4 C01, App. F, H",
+       technique="TLC model checking of encoder/decoder-machine round trip; TLC-generated messages replayed through the real factories; trace validation of real encode/decode/re-encode events",
+       text="TLC checks the round trip on the model for every message of a bounded scope (including the complete stream/function/W-bit and "
+            "session-id spaces); the same messages are built with the real factories (TLC -> Go), and seeded random messages built six ways are "
+            "encoded, decoded and re-encoded by the real code (Go -> TLC); TLC compares the representation-level projection of the decoded "
+            "message with the original and the bytes with the specification's.",
+       note="scope bounds as in MCRoundTrip.cfg; random trees to depth 5; items above 4095 elements are covered by the run-length 'big' driver (C13)")
+def c01(ck):
+    _codec_common(ck, ["InvC01"],
+                  "model: every message of MCRoundTrip's scope (13 leaf formats x boundary payloads, lists to depth 2, "
+                  "all 65536 (s,f,w) and all 65536 session ids) through the decoder machine and the grammar; "
+                  "replay: a sample of those messages built with the real factories; traces: random complete messages "
+                  "built 6 ways (factory, life cycle, fill, SML parser, HSMS decoder, size boundaries 255|256 and 65535|65536), "
+                  "decoded from an exact-capacity and a poisoned-tail buffer and re-encoded; non-trivial = has an item; "
+                  "distinct by (message projection, bytes)")
+
+
+@check("C02", design_ref="4 C02, App. H",
+       technique="TLA+ statement of the SEMI E5/E37 encoding as oracle; TLC-computed bytes replayed against real ToBytes(); trace validation of real encodings of complete and incomplete messages",
+       text="Secs2.tla states the wire format independently of the code (format byte, shortest length, two's complement, IEEE-754, children in "
+            "order, 10-byte header); TLC checks layout lemmas on it and then every recorded ToBytes() of the real code - complete and incomplete "
+            "messages - against EncMsg of the representation-level projection. A round trip cannot see an encoder and decoder that agree on a "
+            "wrong format; this can.",
+       note="float bit patterns come from math.Float32bits/Float64bits in the harness; the projection is trusted")
+def c02(ck):
+    _codec_common(ck, ["InvC02"],
+                  "model: layout lemmas (format byte, shortest length, header fields, children in order) on MCRoundTrip's "
+                  "scope; replay: TLC-computed bytes vs real ToBytes() for a sample of the scope; traces: ToBytes() of random "
+                  "complete and incomplete messages (each incompleteness cause alone and combined) against EncMsg of the "
+                  "projection; non-trivial = has an item; distinct by (message projection, bytes)")
+    if ck.violations:
+        return
+    c02_values(ck)
+
+
+def c02_values(ck):
+    """every value of the 1- and 2-byte formats, F4 bit patterns (interval summaries)"""
+    pass
